@@ -131,3 +131,47 @@ def gen_c14(seed):
                 it += 1
     return {"format": 1, "property": "C14", "engine": "condsim", "seed": seed, "rng": H(seed, "rng"),
             "conds": conds, "sharing": sharing, "history": hist, "fault": None}
+
+
+def gen_c14_don(seed):
+    """DeepONet conditions that share a network and / or a function set, under the Solver's protocol."""
+    r = rnd(seed, "gen-don")
+    nn = r.choice((1, 1, 1, 2))
+    nets = [{"thidden": r.choice(([4], [3, 3])), "bhidden": r.choice(([4], [5, 3])), "m": r.choice((2, 3, 5))} for _ in range(nn)]
+    nf = r.choice((1, 2, 2, 3))
+    size = r.choice((1, 2, 3, 4))
+    same_size = r.random() < 0.7          # equally sized sets: a wrong branch output is silent, not a shape error
+    fsets = []
+    for j in range(nf):
+        m = size if same_size else r.choice((1, 2, 3, 4))
+        fsets.append({"fam": r.choice(("lin", "sin", "quad")), "ks": [round(r.uniform(0.1, 1.5), 3) for _ in range(m)]})
+    nc = r.choice((2, 2, 3, 4))
+    conds = []
+    for i in range(nc):
+        kind = r.choice(("data", "data", "grid", "random"))
+        smp = {"kind": kind}
+        if kind == "data":
+            smp["pts"] = [round(r.uniform(0, 1), 3) for _ in range(r.choice((1, 3, 5)))]
+        else:
+            smp["n"] = r.choice((2, 4, 7))
+        conds.append({"net": r.randrange(nn), "fset": r.randrange(nf), "sampler": smp,
+                      "resid": r.choice(("u_minus_f", "u_minus_f", "u_minus_c", "du_minus_f")), "c": r.choice((0.5, 1.0, 2.0)),
+                      "cls": r.choice(("pi", "pi", "single")), "role": r.choice(("train", "train", "val"))})
+    if not any(c["role"] == "train" for c in conds):
+        conds[0]["role"] = "train"
+    train = [i for i, c in enumerate(conds) if c["role"] == "train"]
+    val = [i for i, c in enumerate(conds) if c["role"] == "val"]
+    hist = []
+    for _ in range(r.randint(2, 9)):
+        c = r.random()
+        if c < 0.5:
+            hist.append({"op": "train", "order": list(train)})
+            if r.random() < 0.8:
+                hist.append({"op": "opt"})
+        elif c < 0.8 and val:
+            hist.append({"op": "val", "order": list(val)})
+        else:
+            hist.append({"op": "opt"})
+    return {"format": 1, "property": "C14", "engine": "donsim", "seed": seed, "rng": H(seed, "rng"),
+            "init": H(seed, "init") % (2 ** 31), "disc": [round(0.05 + 0.9 * j / 5, 4) for j in range(r.choice((3, 6)))],
+            "nets": nets, "fsets": fsets, "conds": conds, "history": hist, "sharing": {}, "fault": None}
